@@ -19,7 +19,8 @@ package c16
 // reg                the message types of the repository this binary links (compared with the
 //                    regenerated registry the theorems are about)
 //
-// Observed: what comes out of every subscribed channel, in order. Direct oracle (its own bookkeeping by
+// Observed: what comes out of every subscribed channel (per channel as a sorted list: the order between
+// types on a merged channel is not determined by the code; the order within a type is judged by the oracle). Direct oracle (its own bookkeeping by
 // protobuf name, no reflect strings): a message of type t is delivered exactly once, to the channel of
 // the latest by-value subscription for t that was not unsubscribed since; to nobody when there is none;
 // and what comes out is byte for byte what was sent, of that type.
@@ -43,7 +44,6 @@ import (
 	"google.golang.org/protobuf/reflect/protoregistry"
 
 	"verifharness/internal/h"
-	"verifharness/props/c17/fakepeer"
 )
 
 var _ = []interface{}{dkg.PublicKey{}, vss.PublicKey{}} // link every package of the node that registers message types
@@ -99,6 +99,7 @@ func mkTyped(name string, id int) proto.Message {
 
 type subDelivery struct {
 	ch, id int
+	sub    int // which SubscribeMsg call's channel it came out of
 	name   string
 	raw    []byte
 }
@@ -165,18 +166,18 @@ func execSub(syncT, opsS string) (res h.Result) {
 		panic(err)
 	}
 	defer c.Close()
-	s, err := fakepeer.Handshake(c, []byte("H"))
+	s, err := boundedHandshake(c, []byte("H"))
 	if err != nil {
 		panic(err)
 	}
 	var mu sync.Mutex
 	var got []subDelivery
 	tick := make(chan struct{}, 1)
-	reader := func(ch int, out chan p2p.P2PMessage) {
+	reader := func(ch, sub int, out chan p2p.P2PMessage) {
 		for m := range out {
 			raw, _ := proto.Marshal(m.Msg.Message)
 			mu.Lock()
-			got = append(got, subDelivery{ch: ch, id: int(m.RequestNonce), name: proto.MessageName(m.Msg.Message), raw: raw})
+			got = append(got, subDelivery{ch: ch, sub: sub, id: int(m.RequestNonce), name: proto.MessageName(m.Msg.Message), raw: raw})
 			mu.Unlock()
 			select {
 			case tick <- struct{}{}:
@@ -232,7 +233,7 @@ func execSub(syncT, opsS string) (res h.Result) {
 			if err != nil {
 				panic(err)
 			}
-			go reader(op.ch, out)
+			go reader(op.ch, i, out)
 			if op.ch+1 > nch {
 				nch = op.ch + 1
 			}
@@ -304,12 +305,20 @@ func execSub(syncT, opsS string) (res h.Result) {
 	}
 	mu.Lock()
 	defer mu.Unlock()
-	per := make([][]string, nch)
+	// the order BETWEEN types on one subscriber channel is not determined (SubscribeMsg merges one channel
+	// per type with a goroutine each): ids are listed sorted per channel; the order WITHIN a type is judged here
+	per := make([][]int, nch)
 	count := map[int]int{}
+	lastOf := map[[2]string]int{}
 	for _, d := range got {
 		if d.ch >= 0 && d.ch < nch {
-			per[d.ch] = append(per[d.ch], strconv.Itoa(d.id))
+			per[d.ch] = append(per[d.ch], d.id)
 		}
+		k := [2]string{strconv.Itoa(d.sub), d.name} // per SubscribeMsg call: each has its own channels and reader
+		if l, ok := lastOf[k]; ok && d.id < l && res.Oracle == "" {
+			res.Oracle = fmt.Sprintf("out-of-order: channel %d received message %d of type %s after message %d of the same type", d.ch, d.id, d.name, l)
+		}
+		lastOf[k] = d.id
 		count[d.id]++
 		if res.Oracle != "" {
 			continue
@@ -346,7 +355,12 @@ func execSub(syncT, opsS string) (res h.Result) {
 	for chn := 0; chn < nch; chn++ {
 		x := "-"
 		if len(per[chn]) > 0 {
-			x = strings.Join(per[chn], ",")
+			sort.Ints(per[chn])
+			var ss []string
+			for _, id := range per[chn] {
+				ss = append(ss, strconv.Itoa(id))
+			}
+			x = strings.Join(ss, ",")
 		}
 		parts = append(parts, fmt.Sprintf("c%d=%s", chn, x))
 	}
